@@ -207,11 +207,52 @@ def stuck_probe(ctx):
         raise RuntimeError(f"stuck probe ended without finishing: {err[-800:]}")
 
 
+def deleted_functions(ctx, T, rng):
+    """the application may remove a function from an object (`del subunit.<function>`, function.py's `__delete__`): what the device reports for
+    it afterwards is a line like any other — nothing raises, the lines after it are processed"""
+    from ..realobj import StubConnection, subunit_class
+    from ynca.connection import YncaProtocolStatus as St
+    n = 0
+    for c in T["classes"]:
+        cls = subunit_class(c["py"])
+        conn = StubConnection()
+        obj = cls(conn)
+        readable = [f for f in c["fns"] if f["get"]]
+        if len(readable) < 2:
+            continue
+        f, g = rng.sample(readable, 2)
+        try:
+            delattr(obj, f["attr"])
+        except Exception:  # noqa: BLE001
+            continue            # (not removable: nothing to check)
+        n += 1
+        ctx.case(("deleted", c["py"], f["name"]))
+        what = None
+        try:
+            conn.deliver(St.OK, c["id"], f["name"], value_for(rng, T, f, undecodable_ok=False))
+        except Exception as e:  # noqa: BLE001
+            what = f"the report {f['name']}=... for a function the application had removed from the object raised {type(e).__name__} in the message handler (in the reader thread this ends the connection)"
+        if what is None:
+            try:
+                v = value_for(rng, T, g, undecodable_ok=False)
+                conn.deliver(St.OK, c["id"], g["name"], v)
+                if getattr(obj, g["attr"]) is None and cls is not None and getattr(cls, g["attr"]).converter.to_value(v) is not None:
+                    what = f"the line after it ({g['name']}={v!r}) was not processed"
+            except Exception as e:  # noqa: BLE001
+                what = f"the line after it raised {type(e).__name__}"
+        if what:
+            ctx.violation(f"{c['py']}: del obj.{f['attr']}, then the device reports it: {what}", {"path": "deleted", "class": c["py"], "function": f["name"]},
+                          {"kind": "deleted-function", "path": "deleted"})
+            break
+    ctx.cov["deleted_function_reports"] = n
+
+
 def run(ctx: core.Ctx):
     ctx.lean_stage()
     T = core.tables()
     thorough = ctx.tier == "thorough"
     stuck_probe(ctx)
+    deleted_functions(ctx, T, ctx.rng)
     dis = typed_attack(ctx, T, ctx.rng, thorough)
     nb = byte_attack(ctx, T, ctx.rng, thorough)
     # user-declared functions: a converter may signal "cannot decode" with any exception (a dict lookup raises KeyError, an index raises
@@ -283,6 +324,22 @@ def replay(ctx, path):
     if rp.get("path") == "b2":
         from .. import b2check
         return b2check.replay_b2(rp, ["C10", "C09"])
+    if rp.get("path") == "deleted":
+        from ..realobj import StubConnection, subunit_class
+        from ynca.connection import YncaProtocolStatus as St
+        T = core.tables()
+        c = next(x for x in T["classes"] if x["py"] == rp["class"])
+        f = next(x for x in c["fns"] if x["name"] == rp["function"])
+        conn = StubConnection()
+        obj = subunit_class(c["py"])(conn)
+        delattr(obj, f["attr"])
+        try:
+            conn.deliver(St.OK, c["id"], f["name"], "1")
+            print("impl : handled")
+            return 0
+        except Exception as e:  # noqa: BLE001
+            print("impl : raises", type(e).__name__, e)
+            return 1
     if rp.get("path") == "stuck-probe":
         # deliver the one line to a fresh object in a child process with a time limit
         import subprocess
